@@ -424,11 +424,43 @@ class Gen:
             st["floatPrec"] = r.choice([0, 3, 12])
         if r.random() < 0.2:
             st["errMarshal"] = "string"
+        needs_stack = bool(needs)
         if needs:
             st["stackMarshal"] = needs.pop()
         derive = []
         if abs_prog["with"]:
-            derive.append({"with": ctx_ops, "isWith": True})
+            # the context fields reach the logger through With()...Logger(), or partly through UpdateContext on that
+            # logger - also while its level is Disabled (Level() is not monotonic along a chain: a later Level() re-enables
+            # it) - with Level / Output steps in between: none of these may drop, duplicate or reorder a context field
+            x = r.random()
+            if x < 0.6:
+                derive.append({"with": ctx_ops, "isWith": True})
+            else:
+                cut = r.randrange(0, len(ctx_ops) + 1)
+                derive.append({"with": ctx_ops[:cut], "isWith": True})
+                disabled = r.random() < 0.5
+                if disabled:
+                    derive.append({"level": 7})
+                elif r.random() < 0.3:
+                    derive.append({"level": 1})
+                if r.random() < 0.3:
+                    derive.append({"output": True})
+                if cut < len(ctx_ops) or r.random() < 0.5:
+                    derive.append({"update": ctx_ops[cut:], "isUpd": True})
+                if disabled:
+                    derive.append({"level": r.choice([-1, 0, 1])})
+                if r.random() < 0.2:
+                    derive.append({"output": True})
+        # an ErrorMarshalFunc that yields nil: Err / AnErr then add no field at all (the abstract program has one), so this
+        # setting is used only by programs whose errors travel through Fields() / Errs(), where nil is rendered as null
+        def has_err_method(x):
+            if isinstance(x, dict):
+                return x.get("m") in ("Err", "AnErr") or any(has_err_method(v) for v in x.values())
+            if isinstance(x, list):
+                return any(has_err_method(v) for v in x)
+            return False
+        if "errMarshal" not in st and not needs_stack and r.random() < 0.15 and not has_err_method(ctx_ops) and not has_err_method(ev_ops):
+            st["errMarshal"] = "nil"
         hooks = []
         for j, hk in enumerate(abs_prog["hooks"]):
             if hk in ("ts", "caller"):
